@@ -725,3 +725,60 @@ def assert_rule(ctx: Ctx) -> None:
 
 
 exception("ASSERT-1", "cubed.core.rechunk.multistage_regular_rechunking_plan:raise-assertion", "planner's internal-bug report after MAX_STAGES; no reaching input known (C14 out of scope)")
+
+
+@rule("UNITS-1", props=["C01", "C15"], floor=15, tier="thorough")
+def units_rule(ctx: Ctx) -> None:
+    """dimension analysis of block/element index arithmetic: a block index is never added to,
+    compared (ordered) with, or clamped by an element count or chunk size, never multiplied
+    by a block count, never divided by a chunk size (only definite clashes of known units)"""
+    from ..units import Units, E, B, C, R, seed_params
+
+    repo = ctx.repo
+    seed_params(repo)
+    n_known = 0
+    for d in repo.functions():
+        mq = d.module.qual
+        if mq.startswith(("cubed.vendor.", "cubed.diagnostics.", "cubed.runtime.", "cubed.storage.stores")):
+            continue
+        fl, cfg = flow_of(repo, d), cfg_of(d)
+        from ..units import PARAM_SEEDS
+
+        multi = {p: c for (q, p), c in PARAM_SEEDS.get(id(repo), {}).items() if q == d.qual and len(c) > 1}
+        variants = [{}]
+        for p_, cands in list(multi.items())[:2]:
+            variants = [dict(v, **{p_: c_}) for v in variants for c_ in cands]
+        known_here = 0
+        all_clashes = []
+        for choice in variants:
+            u = Units(repo, d, fl, choice)
+            k_here = 0
+            for n in d.own_nodes():
+                interesting = isinstance(n, ast.BinOp) or (isinstance(n, ast.Call) and isinstance(n.func, ast.Name) and n.func.id in ("min", "max")) or (isinstance(n, ast.Compare) and any(isinstance(o, (ast.Lt, ast.LtE, ast.Gt, ast.GtE)) for o in n.ops))
+                if not interesting or not cfg.has(n):
+                    continue
+                try:
+                    r_ = u.unit(n, cfg.node_of(n))
+                except RecursionError:
+                    continue
+                if r_ in (E, B, C, R):
+                    k_here += 1
+            known_here = max(known_here, k_here)
+            all_clashes += [(node, msg + (f" [with {choice}]" if choice else "")) for node, msg in u.clashes]
+        n_known += known_here
+
+        class _U:
+            clashes = all_clashes
+
+        u = _U()
+        seen = set()
+        for node, msg in u.clashes:
+            if id(node) in seen:
+                continue
+            seen.add(id(node))
+            if isinstance(node, ast.Compare) and all(isinstance(o, (ast.Eq, ast.NotEq)) for o in node.ops):
+                continue  # "one element per block" equalities are legitimate
+            ctx.ob(d, node, False, f"unit clash in `{unparse(node, 70)}`: {msg} (E = elements, B = block index/count, C = chunk size)", sel=f"units:{unparse(node, 50)}")
+        if known_here and not [1 for node, _ in u.clashes if not (isinstance(node, ast.Compare) and all(isinstance(o, (ast.Eq, ast.NotEq)) for o in node.ops))]:
+            ctx.ob(d, None, True, f"{known_here} index expressions with known units, no clash", sel="units:clean")
+    ctx.need(n_known >= 40, f"only {n_known} expressions received a unit: seeds no longer match the code")
